@@ -38,6 +38,13 @@ Row12(a, b, c, x, y) ==
        IF g26 % 4 = 0 /\ Abs(g26 \div 4) <= 40000 THEN [ok |-> TRUE, v |-> g26 \div 4, far |-> Far(c)]
        ELSE [ok |-> FALSE, v |-> 0, far |-> 0]
 
+(* the same coordinate in units of 2^-14, without the requirement that it falls on the 2^-12 grid *)
+Row14(a, b, c, x, y) ==
+  LET A == M13(a)  Bb == M13(b)  C == M13(c) IN
+  IF ~(A.ok /\ Bb.ok /\ C.ok) \/ Abs(x) > 2000 \/ Abs(y) > 2000 THEN [ok |-> FALSE, v |-> 0]
+  ELSE [ok |-> TRUE, v |-> A.v * (2 * x + 1) + Bb.v * (2 * y + 1) + 2 * C.v]
+FlatStops(ev) == \A i \in 1..Len(ev.stops) : ev.stops[i].c = ev.stops[1].c
+
 (* spread rules for an offset v + (far translation) *)
 FarClamp(spread, v, far) ==
   CASE spread = 1 -> IF far < 0 THEN 0 ELSE T12
@@ -68,7 +75,14 @@ JudgePix(ev) ==
       gy == Row12(ev.m[4], ev.m[5], ev.m[6], ev.x, ev.y) IN
   IF ~Premul(ev.got) THEN "result is not a premultiplied colour"
   ELSE IF ev.shape = 0 THEN
-    IF ~gx.ok THEN "unjudged"
+    IF ~gx.ok THEN
+       \* off the 2^-12 grid: a gradient whose stops all carry one colour can still be decided - that colour, or
+       \* (spread none, offset outside [0,1]) no colour
+       LET g == Row14(ev.m[1], ev.m[2], ev.m[3], ev.x, ev.y) IN
+       IF ~(FlatStops(ev) /\ g.ok) THEN "unjudged"
+       ELSE LET E == IF ev.spread = 0 /\ (g.v < 0 \/ g.v > 4 * T12) THEN << 0, 0, 0, 0 >>
+                     ELSE [ch \in 1..4 |-> C16(ev.stops[1].c[ch])] IN
+            IF \A ch \in 1..4 : Abs(ev.got[ch] - E[ch]) <= 1 THEN "ok" ELSE "linear gradient colour (single-colour stops)"
     ELSE LET u == IF gx.far # 0 THEN FarClamp(ev.spread, gx.v, gx.far) ELSE Clamp(ev.spread, gx.v)
              E == IF u = -1 THEN << 0, 0, 0, 0 >> ELSE ColorAt(S, u)
              k == IF u = -1 THEN 0 ELSE Slack(S, u) IN
@@ -117,7 +131,31 @@ JudgeCfg(ev) ==
           IF \A i \in 1..6 : NormD(ev.m[i][2], ev.m[i][3]) = want[i] THEN "ok"
           ELSE "pixel-to-gradient matrix is not M composed with the pixel-to-viewBox map"
 
-Judge(ev) == CASE ev.ev = "pix" -> JudgePix(ev) [] ev.ev = "cfg" -> JudgeCfg(ev) [] OTHER -> "unknown event"
+(* pixr: a pixel of whatever image a real Renderer handed to Draw for a gradient paint, when that image does not     *)
+(* report a gradient configuration of its own: the expected configuration is composed here from the registers.      *)
+JudgePixR(ev) ==
+  LET a  == [i \in 1..6 |-> AsScaled(ev.nreg[i], 16)]
+      v  == [i \in 1..4 |-> AsScaled(ev.vb[i], 6)]
+      dx == ev.rect[3] - ev.rect[1]   dy == ev.rect[4] - ev.rect[2]
+      wx == v[3].k - v[1].k           wy == v[4].k - v[2].k
+      lat == /\ \A i \in 1..6 : a[i].ok /\ Abs(a[i].k) <= 65536
+             /\ \A i \in 1..4 : v[i].ok /\ Abs(v[i].k) <= 8192
+             /\ wx > 0 /\ wy > 0 /\ dx > 0 /\ dy > 0
+             /\ (dx * 64) % wx = 0 /\ (dy * 64) % wy = 0 /\ IsPow2((dx * 64) \div wx) /\ IsPow2((dy * 64) \div wy)
+  IN IF ~lat THEN "unjudged"
+     ELSE LET jx == Log2((dx * 64) \div wx)
+              jy == Log2((dy * 64) \div wy)
+              want == << NormD(a[1].k, 16 + jx), NormD(a[2].k, 16 + jy),
+                         NormD(a[3].k * 64 + a[1].k * v[1].k + a[2].k * v[2].k, 22),
+                         NormD(a[4].k, 16 + jx), NormD(a[5].k, 16 + jy),
+                         NormD(a[6].k * 64 + a[4].k * v[1].k + a[5].k * v[2].k, 22) >>
+              D(w) == IF w[2] < 0 THEN (IF w[2] >= -10 THEN << 1, w[1] * Pow2(-w[2]), 0 >> ELSE << 0, 0, 0 >>)
+                      ELSE << 1, w[1], w[2] >>
+              j == JudgePix([ev EXCEPT !.ev = "pix"] @@ [m |-> [i \in 1..6 |-> D(want[i])]]) IN
+          IF j \in {"ok", "unjudged"} THEN j ELSE "image handed to Draw for a gradient paint: " \o j
+
+Judge(ev) == CASE ev.ev = "pix" -> JudgePix(ev) [] ev.ev = "cfg" -> JudgeCfg(ev) [] ev.ev = "pixr" -> JudgePixR(ev)
+               [] OTHER -> "unknown event"
 
 Init == l \in 1..Len(Trace)
 Next == FALSE /\ UNCHANGED vars
